@@ -118,23 +118,28 @@ def lmask_case(r):
     return [] if r is None else ['emBits %% 8 == %d' % r]
 
 
-def emsa_verify_contract(r=None):
+LEN_CASES = {None: [], 'eq': ['len(em) == ' + EMLEN], 'gt': ['len(em) > ' + EMLEN], 'lt': ['len(em) < ' + EMLEN]}
+
+
+def emsa_verify_contract(r=None, lencase=None):
+    """callers see the contract with r = lencase = None; it is PROVED as the union of the 8 x 3 instances
+    (emBits mod 8 == r) x (len(em) == / > / < emLen), which cover every input of the general contract"""
     H = S + 'pss_H(em, emBits, %s)' % HLEN
-    ok = S + 'emsa_pss_ok(mhash.g_alg, %s, em, emBits, sLen, mgf(%s, %s - %s - 1))' % (MHASH, H, EMLEN, HLEN)
+    ok = S + 'emsa_pss_ok(mhash.g_alg, %s, %s, em, emBits, sLen, mgf(%s, %s - %s - 1))' % (HLEN, MHASH, H, EMLEN, HLEN)
     return Contract(P + '_EMSA_PSS_VERIFY',
                     params={'mhash': OHASH, 'em': 'bytes', 'emBits': 'nat', 'mgf': MGF_PARAM, 'sLen': 'nat'},
                     # len(em) >= 1: derived from the only call site (em = long_to_bytes(m, emLen) is never empty); RFC 8017 9.1.2
                     # takes an EM of emLen octets -- every other length is refused by the contract below
-                    requires=['len(em) >= 1', EM_DOMAIN] + lmask_case(r),
+                    requires=['len(em) >= 1', EM_DOMAIN] + lmask_case(r) + LEN_CASES[lencase],
                     raises={'ValueError': ('iff', 'not ' + ok)},
                     ensures={'none': 'result is None'},
-                    modifies=[])
+                    modifies=[], opaque=[S + 'mgf1'])
 
 
 def emsa_encode_contract(r=None):
     salt = 'rnd_tape(old(rnd_cursor()))'
     H = S + 'emsa_pss_H(mhash.g_alg, %s, %s)' % (MHASH, salt)
-    em = S + 'emsa_pss_em(mhash.g_alg, %s, emBits, %s, mgf(%s, %s - %s - 1))' % (MHASH, salt, H, EMLEN, HLEN)
+    em = S + 'emsa_pss_em(mhash.g_alg, %s, %s, emBits, %s, mgf(%s, %s - %s - 1))' % (HLEN, MHASH, salt, H, EMLEN, HLEN)
     return Contract(P + '_EMSA_PSS_ENCODE',
                     params={'mhash': OHASH, 'emBits': 'nat', 'randFunc': RANDFUNC, 'mgf': MGF_PARAM, 'sLen': 'nat'},
                     requires=[EM_DOMAIN] + lmask_case(r),
@@ -145,17 +150,18 @@ def emsa_encode_contract(r=None):
                              'length': 'len(result) == ' + EMLEN,
                              'salt': 'len(%s) == sLen' % salt,
                              'entropy': 'rnd_cursor() == old(rnd_cursor()) + 1 and sys_cursor() == old(sys_cursor())'},
-                    modifies=[])
+                    modifies=[], opaque=[S + 'mgf1'])
 
 
 # ---------------------------------------------------------------- RSASSA-PSS
 
-def registry(r=None):
+def registry(r=None, lencase=None):
     r = None if r in (None, '') else int(r)
+    lencase = lencase or None
     reg = common_registry()
     add_rsa_key(reg)
     add_mgf(reg)
-    reg.add(emsa_verify_contract(r))
+    reg.add(emsa_verify_contract(r, lencase))
     reg.add(emsa_encode_contract(r))
     return reg
 
